@@ -77,12 +77,38 @@ class BadHandle(Exception):
     pass
 
 
+class UserArray(np.ndarray):
+    """a trivial user subclass of ndarray (like np.memmap / np.matrix / astropy Quantity sources)"""
+    pass
+
+
+def _source_array(vals, how):
+    """the source array kinds a caller may hand to a constructor: exact ndarray, 0-d, an owning ndarray subclass, a memmap"""
+    if how == 1 and len(vals) == 1:
+        return np.array(float(vals[0]))
+    if how == 2:
+        a = np.ndarray.__new__(UserArray, shape=(len(vals),), dtype=np.float64)     # owns its data
+        a[:] = vals
+        return a
+    if how == 3:
+        import tempfile
+        a = np.memmap(tempfile.TemporaryFile(), dtype=np.float64, mode="w+", shape=(max(len(vals), 1),))
+        a[:len(vals)] = vals
+        return a if len(vals) else a[:0]
+    return np.array(vals, dtype=np.float64)
+
+
+def _plain(a):
+    return type(a) is np.ndarray
+
+
 class Real:
     """executes Heap.Op operations on the real nifty.cl objects, mirroring the model's object numbering"""
 
     def __init__(self):
         self.arrs, self.wraps, self.fields, self.ops = [], [], [], []
         self.guard_ok = True          # all guards so far held (evaluated on the real objects)
+        self.subclass_seen = False    # the history contains an ndarray-subclass source (user subclass, memmap)
         self.birth = []               # bytes of every field at construction
         self.opbirth = []             # action of every operator at construction
         self.created_by = []          # op name that created each field
@@ -130,10 +156,8 @@ class Real:
         ret = None
         A, W, F = self.arrs, self.wraps, self.fields
         if k == "newArr":
-            if how == 1 and len(op["vals"]) == 1:
-                A.append(np.array(float(op["vals"][0])))        # a 0-d ndarray
-            else:
-                A.append(np.array(op["vals"], dtype=np.float64))
+            A.append(_source_array(op["vals"], how))
+            self.subclass_seen = self.subclass_seen or not _plain(A[-1])
             ret = ["arr", len(A) - 1]
         elif k == "sliceArr":
             a = self._get(A, op["a"])
@@ -161,7 +185,12 @@ class Real:
                 a[op["i"]] = float(op["v"])
         elif k == "arrBase":
             b = self._get(A, op["a"]).base
-            ret = None if b is None else ["arr", self._idx(A, b)]
+            # a non-ndarray base (the mmap object behind a memmap) is a buffer owner, not an array handle
+            ret = None if not isinstance(b, np.ndarray) else ["arr", self._idx(A, b)]
+            if ret is not None and ret[1] < 0 and self.subclass_seen:
+                # NumPy wraps results computed from ndarray subclasses as views of a hidden temporary (`__array_wrap__`);
+                # `.base` navigation to such temporaries is outside the model (design.d/C07.md, round 2)
+                ret = None
         elif k == "setFlag":
             a = self._get(A, op["a"])
             if op["b"] and self._is_field_buf(a):
@@ -459,8 +488,10 @@ def gen_history(rng, length, p_unguarded=0.12):
         A, W, F, O = R.arrs, R.wraps, R.fields, R.ops
         choices = [("newArr", 3)]
         if A:
-            choices += [("writeArr", 4), ("setFlag", 1), ("arrBase", 2)]
-        if any(a.ndim == 1 for a in A):
+            choices += [("writeArr", 4), ("setFlag", 1)]
+        if any(_plain(a) for a in A):
+            choices += [("arrBase", 2)]
+        if any(a.ndim == 1 and _plain(a) for a in A):
             choices += [("sliceArr", 2)]
         if A:
             choices += [("wrap", 3), ("fieldFromArr", 4)]
@@ -497,8 +528,10 @@ def gen_history(rng, length, p_unguarded=0.12):
         F1 = [i for i, f in enumerate(F) if len(f.shape) == 1]
 
         # handles that alias a field are preferred targets for writes: that is where the property lives
-        def pick_arr(any_dim=False):
-            idx = [i for i, a in enumerate(A) if any_dim or a.ndim == 1]
+        def pick_arr(any_dim=False, plain=False):
+            idx = [i for i, a in enumerate(A) if (any_dim or a.ndim == 1) and (not plain or _plain(a))]
+            if not idx:
+                idx = [i for i, a in enumerate(A) if any_dim or a.ndim == 1]
             hot = [i for i in idx if R._is_field_buf(A[i])]
             return rng.choice(hot) if hot and rng.random() < 0.6 else rng.choice(idx)
 
@@ -508,9 +541,11 @@ def gen_history(rng, length, p_unguarded=0.12):
 
         if k == "newArr":
             op["vals"] = [ri(-9, 10) for _ in range(rng.choice([1, 1, 2, 3, 3, 4]))]
-            op["how"] = ri(2)           # how=1 with a single value: a 0-d ndarray
+            op["how"] = rng.choice([0, 0, 1, 2, 3])    # 1 (single value): 0-d ndarray; 2: user subclass; 3: np.memmap
+            if op["how"] == 3 and not op["vals"]:
+                op["how"] = 0
         elif k == "sliceArr":
-            a = pick_arr()
+            a = pick_arr(plain=True)       # `.base` of views of ndarray subclasses is not collapsed by NumPy: outside the model
             n = lenA(a)
             if rng.random() < 0.5:
                 op.update(a=a, lo=0, hi=n, how=ri(4))
@@ -518,7 +553,7 @@ def gen_history(rng, length, p_unguarded=0.12):
                 lo = ri(n + 1)
                 op.update(a=a, lo=lo, hi=ri(lo, n + 2))
         elif k == "arrBase":
-            op.update(a=pick_arr(True))
+            op.update(a=pick_arr(True, plain=True))
         elif k == "writeArr":
             a = pick_arr(True)
             n = lenA(a) if A[a].ndim else 1
@@ -528,8 +563,8 @@ def gen_history(rng, length, p_unguarded=0.12):
             b = rng.random() < 0.4
             if b and not unguarded and R._is_field_buf(A[a]):
                 b = False
-            if b and A[a].ndim == 0:
-                b = False     # the single memory cell behind a broadcast is not re-enabled: outside the model
+            if b and (A[a].ndim == 0 or not _plain(A[a])):
+                b = False     # 0-d cells behind broadcasts and subclass views are not re-enabled: outside the model
             if b and A[a].ndim and A[a].strides[0] == 0:
                 b = False     # stride-0 broadcast results (one memory cell behind n entries) are not re-enabled: outside the model
             op.update(a=a, b=b)
@@ -617,6 +652,13 @@ def attack_matrix():
     for how in range(3):
         ctors.append(("fromWrap%d" % how, [{"op": "newArr", "vals": [0, 1, 2, 3]}, {"op": "wrap", "a": 0},
                                            {"op": "fieldFromWrap", "w": 0, "n": 4, "how": how}]))
+    for kind in (2, 3):
+        for how in range(7):
+            ctors.append(("sub%d_%d" % (kind, how), [{"op": "newArr", "vals": [0, 1, 2, 3], "how": kind},
+                                                      {"op": "fieldFromArr", "a": 0, "n": 4, "how": how}]))
+        for how in range(3):
+            ctors.append(("subwrap%d_%d" % (kind, how), [{"op": "newArr", "vals": [0, 1, 2, 3], "how": kind}, {"op": "wrap", "a": 0},
+                                                          {"op": "fieldFromWrap", "w": 0, "n": 4, "how": how}]))
     for how in (0, 1, 2, 3, 5, 6):
         # 0-d ndarray / 0-d AnyArray sources on the scalar domain, through every constructor
         ctors.append(("zeroD%d" % how, [{"op": "newArr", "vals": [3], "how": 1}, {"op": "fieldFromArr", "a": 0, "n": 1, "how": how}]))
